@@ -304,6 +304,8 @@ def run(tier):
     rnames = sorted({t for ts in rnd for t in ts if DP._NAME.fullmatch(t)} | set(NAMES))
     specs = corpus.quick_specs() if tier == "quick" else corpus.thorough_specs()
     cases = corpus.generate(rep, specs)
+    if tier == "thorough":
+        cases = corpus.cap(cases, 40000)
     rep.exhaustive = True
     keep = {"elementwise": 24, "update_at": 16, "get_at": 12, "id": 8, "preserve": 6, "argfind": 6, "reduce": 3} if tier == "quick" else {"elementwise": 4, "update_at": 3, "get_at": 3, "id": 2}
     cases = [c for i, c in enumerate(cases) if i % keep.get(c["fam"], 1) == 0]
